@@ -20,7 +20,9 @@ RULE = ("Hypothesis draws a Hermitian operator (real symmetric / complex Hermiti
         "early termination, repeated/clustered spectrum, complex, batched, or structured operator."
         " Further: tolerance 0 with generic starts, pbar=True, sub-check alg_object (Lanczos(...)(A) after the same"
         " object was applied to a smaller operator), batched members living in blocks of very different scale (none"
-        " may be stopped by another member's scale).")
+        " may be stopped by another member's scale)."
+        " Round 5: a (complex) start vector held by the Lanczos object; lanczos_eigs returns as many Ritz pairs as"
+        " lanczos returns columns.")
 ASSUMPTIONS = [
     "tolerances relative to max(1e-10, 10 tol) * max(1, |M|) because cola clips normalisations at tol/2",
     "the grade g is computed densely with threshold 1e-11; cases whose (g+1)-th Krylov vector has relative norm within [1e-13, 100 tol] are borderline and counted inconclusive for the early-termination checks",
